@@ -148,3 +148,22 @@ check("C09", "P", "exploration", "per-worker canonical subgraph comparison, brid
       "Per-worker copies must have identical dependencies for every class they share; equivalent tests of all workers must be linked "
       "pairwise and share the same four register objects; after a lazy traversal every expanded test has the parents of the up-front graph "
       "and every selected compatible leaf was expanded; parsing twice gives the same graph.", _P_NOTE, "DESIGN.md §3 C09")
+
+ENGINES.append({"name": "Tools", "path": "vlib/toolsim.py, checks/c15.py, checks/c20.py", "serves_properties": ["C15", "C20"],
+                "kind_free_text": "tool-level engine: intertest_setup.update and Manu.run chains on the traversal simulator's seams plus the selftests' "
+                                  "job seam; executions and state requests attributed to steps"})
+
+check("C15", "Tools", "exploration", "differential oracle: executions and unset requests observed during the real intertest_setup.update vs path/descendant sets of the drawn setup tree",
+      "For generated suites (state names equal setup test names) every ancestor-or-self pair (from_state, to_state) that lies in the remove-set "
+      "graph, selections of 1-2 of up to 3 vms, remove_set values and 1-3 workers are sampled; executed setup tests must be exactly the path "
+      "(each once), unset requests on every worker exactly the vm's states below the target, nothing of unselected vms; nonexistent "
+      "from/to states must raise.",
+      "Trusted: the drawn setup tree; remove_set=all (which selects object creation tests as leaves) and to_state=install (hard-wired to the "
+      "shipped 'customize' test) are outside the workload.", "DESIGN.md §3 C15")
+check("C20", "Tools", "exploration", "step-attributed execution counting through the real Manu.run with failure injection (failing test class / exception inside a step)",
+      "Chains of 1-5 steps over 17 built-in steps (incl. repeated steps), vm selections, per-vm variant restrictions and worker sets with "
+      "restricted workers: per step, exactly one execution per selected vm and admitting worker (one per worker covering all vms for vm "
+      "management steps), carrying the step's action and the user's parameter, none for unselected vms, steps in order and all executed "
+      "even after a failing one, return code 1 iff some step failed.",
+      "Trusted: the harness's own evaluation of only/no restrictions for worker compatibility; run/list/unittest steps need a real avocado job "
+      "and are not driven.", "DESIGN.md §3 C20")
